@@ -203,9 +203,10 @@ class SpoptProxy:
     """Stands in for the module object `spopt` inside scico.solver: records the calls to
     minimize / minimize_scalar, then delegates to the real SciPy."""
 
-    def __init__(self, real):
+    def __init__(self, real, capture_only=False):
         self._real = real
         self.calls = []
+        self.capture_only = capture_only      # record the arguments, then abort instead of running SciPy
 
     def __getattr__(self, name):
         return getattr(self._real, name)
@@ -218,6 +219,8 @@ class SpoptProxy:
 
     def minimize(self, *a, **k):
         self._rec("minimize", a, k)
+        if self.capture_only:
+            raise CaptureOnly()
         return self._real.minimize(*a, **k)
 
     def minimize_scalar(self, *a, **k):
@@ -225,12 +228,19 @@ class SpoptProxy:
         return self._real.minimize_scalar(*a, **k)
 
 
+class CaptureOnly(Exception):
+    pass
+
+
 class patched_spopt:
+    def __init__(self, capture_only=False):
+        self.capture_only = capture_only
+
     def __enter__(self):
         from scico import solver
         import scipy.optimize as spo
         self.solver, self.orig = solver, solver.spopt
-        self.proxy = SpoptProxy(spo)
+        self.proxy = SpoptProxy(spo, self.capture_only)
         solver.spopt = self.proxy
         return self.proxy
 
@@ -721,6 +731,126 @@ def check_refuted(ctx):
         ctx.notes.append("Findings/C18_kw.v no longer compiles: finding 'minimize drops keywords' no longer reproduces on the generated table")
 
 
+# ------------------------------------------------------------------ non-finite gradients
+
+NONFINITE_COMPARE = ["CG", "BFGS", "L-BFGS-B", "SLSQP"]
+
+
+def nonfinite_case(rng, variant):
+    """An objective whose true gradient at the starting point has NaN / +inf / -inf entries:
+    variant 'norm':  ||x[0:2]||_2 + 1/2 ||x - t||^2                     at x0[0:2] = 0   -> (nan, nan, finite, ...)
+    variant 'mixed': ... + sqrt(x[2] - a) - sqrt(x[3] - b) (+ log term)  at x0[2] = a, x0[3] = b -> (nan, nan, +inf, -inf, ...)"""
+    shape = rng.choice([[2, 2], [4], [2, 3], [5]])
+    n = int(np.prod(shape))
+    t = [rng.randint(-16, 16) / 4.0 or 1.0 for _ in range(n)]
+    a, b = rng.randint(-8, 8) / 4.0, rng.randint(-8, 8) / 4.0
+    x0 = [0.0, 0.0] + ([a, b] if variant == "mixed" else [rng.randint(-8, 8) / 4.0 for _ in range(2)]) + \
+        [rng.randint(-8, 8) / 4.0 for _ in range(n - 4)]
+    return {"variant": variant, "shape": shape, "t": t, "a": a, "b": b, "x0": x0, "kind": rng.choice(["f64", "f64", "f32"])}
+
+
+def nonfinite_objective(c):
+    import jax.numpy as jnp
+    t = np.array(c["t"])
+    a, b, mixed = c["a"], c["b"], c["variant"] == "mixed"
+
+    def f(x):
+        u = x.ravel()
+        v = jnp.linalg.norm(u[0:2]) + 0.5 * jnp.sum((u - t) ** 2)
+        if mixed:
+            v = v + jnp.sqrt(u[2] - a) - jnp.sqrt(u[3] - b)
+        return v
+    return f
+
+
+def run_nonfinite_case(c, methods, compare):
+    """-> list of (method, what, expected, observed)"""
+    import jax
+    import jax.numpy as jnp
+    import scipy.optimize as spo
+    import scico.numpy as snp
+    from scico import solver
+    dt = np_dtype(c["kind"])
+    f = nonfinite_objective(c)
+    v0 = np.array(c["x0"], dtype=np.float64)
+    x0 = snp.array(v0.reshape(c["shape"]).astype(dt))
+    vg = jax.value_and_grad(lambda v: f(jnp.asarray(v, dt).reshape(c["shape"])))   # the true gradient, independent of scico
+
+    def flat(v):
+        val, g = vg(v)
+        return float(val), np.array(g, dtype=np.float64).ravel()
+    gtrue = flat(v0)[1]
+    bad = []
+    if np.all(np.isfinite(gtrue)):
+        return [("-", "generator: the true gradient is finite at the chosen point", "non-finite entries", gtrue.tolist())]
+    for m in methods:
+        with patched_spopt(capture_only=True) as px:
+            try:
+                solver.minimize(f, x0, method=m)
+            except Exception:     # noqa: BLE001 - CaptureOnly (wrapped by the host callback) is expected
+                pass
+            calls = [cc for nme, cc in px.calls if nme == "minimize"]
+        if not calls:
+            bad.append((m, "minimize does not reach scipy.optimize.minimize", "a call", "none"))
+            continue
+        got = calls[0]["fun"](v0)
+        if not isinstance(got, tuple):
+            bad.append((m, "no gradient is handed to SciPy for a gradient-based method", "fun returning (value, gradient)", repr(got)[:80]))
+            continue
+        g = np.asarray(got[1], dtype=np.float64).ravel()
+        fin = np.isfinite(gtrue)
+        same = g.shape == gtrue.shape and np.array_equal(np.isnan(g), np.isnan(gtrue)) and \
+            np.array_equal(np.isposinf(g), np.isposinf(gtrue)) and np.array_equal(np.isneginf(g), np.isneginf(gtrue)) and \
+            np.allclose(g[fin], gtrue[fin], rtol=1e-5 if c["kind"] == "f32" else 1e-12, atol=0)
+        if not same:
+            bad.append((m, "the gradient handed to SciPy is not the true gradient where it has non-finite entries "
+                        "(NaN positions / signs of infinities must be preserved)", gtrue.tolist(), g.tolist()))
+    for m in compare:
+        with np.errstate(all="ignore"):
+            ref = spo.minimize(flat, v0, jac=True, method=m)
+            res = None
+            for _ in range(3):          # pure_callback may complete after `res` is read (rare): fields missing
+                try:
+                    res = solver.minimize(f, x0, method=m)
+                except Exception as e:     # noqa: BLE001
+                    res = e
+                    break
+                if "success" in res:
+                    break
+        if isinstance(res, Exception):
+            bad.append((m, "minimize raises on an objective with a non-finite gradient where the direct SciPy call returns",
+                        {"success": bool(ref.success), "status": int(ref.status)}, f"{type(res).__name__}: {str(res)[-120:]}"))
+            continue
+        if "success" not in res:
+            continue
+        xw = np.asarray(res.x, dtype=np.float64).ravel()
+        if bool(res.success) != bool(ref.success) or int(res.status) != int(ref.status) or \
+                not np.allclose(xw, ref.x, rtol=0, atol=1e-4, equal_nan=True):
+            bad.append((m, "on an objective with a non-finite gradient minimize reports a different outcome than the direct SciPy "
+                        "call with the true gradient (success / status / x)",
+                        {"success": bool(ref.success), "status": int(ref.status), "x": ref.x.tolist()},
+                        {"success": bool(res.success), "status": int(res.status), "x": xw.tolist()}))
+    return bad
+
+
+def check_nonfinite(ctx):
+    gm = gradient_methods()
+    plan = [("mixed", gm, []), ("norm", [m for m in NONFINITE_COMPARE if m in gm], [m for m in NONFINITE_COMPARE if m in gm])]
+    if not ctx.quick:
+        full = [m for m in gm if m not in NEED_HESS]
+        plan = [(v, gm, full if i % 3 == 0 else NONFINITE_COMPARE) for i in range(6) for v in ("mixed", "norm")]
+    for variant, methods, compare in plan:
+        c = nonfinite_case(ctx.rng, variant)
+        if c["kind"] == "f32":
+            compare = [m for m in compare if m not in ("TNC", "SLSQP")]      # known finding (float32 start vector)
+        inp = {"function": "minimize", "nonfinite_gradient": c, "methods": methods, "compare": compare}
+        ctx.count("nonfinite-gradient:" + variant, inp)
+        ctx.dist["nonfinite-gradient:methods"] = ctx.dist.get("nonfinite-gradient:methods", 0) + len(methods)
+        for m, what, exp, obs in run_nonfinite_case(c, methods, compare):
+            ctx.violation("minimize", what, dict(inp, failing_method=m), expected=exp, observed=obs,
+                          oracle="jax.value_and_grad on the flattened problem / direct SciPy call with that gradient")
+
+
 # ------------------------------------------------------------------ minimize_scalar differential
 
 SCALAR_HEADER = """From Coq Require Import List Bool Arith QArith.
@@ -1124,6 +1254,7 @@ def run(ctx: Ctx):
     check_models(ctx)
     check_scalar(ctx)
     check_history(ctx)
+    check_nonfinite(ctx)
     check_handed_function(ctx)
     check_differential(ctx)
     if not getattr(ctx, "no_proofs", False):
@@ -1155,6 +1286,8 @@ def replay(ctx: Ctx, rec):
     if "problem" in inp:
         st, _ = run_differential(inp["problem"], inp["method"], gradient_methods())
         return st == "ok"
+    if "nonfinite_gradient" in inp:
+        return not run_nonfinite_case(inp["nonfinite_gradient"], inp["methods"], inp["compare"])
     if "history" in inp:
         return not run_history(inp["history"], gradient_methods())
     if unit == "minimize_scalar" and "case" in inp:
